@@ -2437,3 +2437,30 @@ package otto
 //@   calls dateObjectOf(_, _) as d
 //@   ensures d.isNaN ==> result.kind == valueString && is(result.value, string) && result.value.(string) == "Invalid Date"
 //@   at_call time.(time.Time).Format : arg1 == builtinDateTimeLayout
+
+// A program (or eval code) leaves the scope stack as it found it on every exit: the global
+// scope is entered and the deferred leaveScope registered BEFORE anything that can raise
+// (declaration instantiation runs script-visible code through accessors and can be
+// interrupted).  Declaration instantiation and statement evaluation themselves are assumed
+// to restore the stack (the inductive hypothesis of C18, proved for [[Call]]).
+//@ func (*runtime).cmplFunctionDeclaration
+//@   trusted
+//@   requires rt != nil
+//@   preserves runtime.scope, scope.outer
+//@ func (*runtime).cmplVariableDeclaration
+//@   trusted
+//@   requires rt != nil
+//@   preserves runtime.scope, scope.outer
+//@ func (*runtime).cmplEvaluateNodeStatementList
+//@   trusted
+//@   requires rt != nil
+//@   preserves runtime.scope, scope.outer
+//@ func (*runtime).enterGlobalScope
+//@   inline
+//@ func (*runtime).cmplEvaluateNodeProgram
+//@   props C18
+//@   nosafety
+//@   requires rt != nil && node != nil && (eval ==> rt.scope != nil)
+//@   dyn_preserves runtime.scope, scope.outer
+//@   preserves runtime.scope, scope.outer
+//@   fresh_refs
